@@ -593,6 +593,52 @@ pub fn run(tier: Tier) -> i32 {
         }
     }
 
+    // (f) composition: both writers (the canonical one and the signing form) encode a container as
+    // brackets, separators and the encodings of its parts - wherever a string sits, it is written
+    // the same way. Model-free: the encoding of the bare string is taken from the same writer.
+    {
+        let mut strs: Vec<String> = util::strings_upto(&crit, 2);
+        let mut cs: Vec<char> = (0u8..0x20).map(|b| b as char).collect();
+        cs.extend(['\u{7f}', 'é', '\u{10000}']);
+        for x in &cs {
+            strs.push(x.to_string());
+            strs.push(format!("a{x}b"));
+        }
+        let writers: [(&str, fn(&Value) -> in_toto::Result<Vec<u8>>); 2] = [("canonicalize", |v| Json::canonicalize(v)), ("canonicalize_for_signing", |v| Json::canonicalize_for_signing(v))];
+        let accs = util::par_fold(&strs, Acc::new, |acc, _i, s| {
+            for (wname, w) in writers {
+                let Guard::Done(Ok(bare)) = guard(|| w(&json!(s))) else { continue };
+                let cat = |parts: &[&[u8]]| -> Vec<u8> { parts.concat() };
+                let shapes: Vec<(&str, Value, Vec<u8>)> = vec![
+                    ("[s]", json!([s]), cat(&[b"[", &bare, b"]"])),
+                    ("[[s]]", json!([[s]]), cat(&[b"[[", &bare, b"]]"])),
+                    ("[0,s]", json!([0, s]), cat(&[b"[0,", &bare, b"]"])),
+                    ("{k:s}", json!({"k": s}), cat(&[b"{\"k\":", &bare, b"}"])),
+                    ("{k:[s]}", json!({"k": [s]}), cat(&[b"{\"k\":[", &bare, b"]}"])),
+                    ("[{k:s}]", json!([{"k": s}]), cat(&[b"[{\"k\":", &bare, b"}]"])),
+                    ("{k:{k:[[s]]}}", json!({"k": {"k": [[s]]}}), cat(&[b"{\"k\":{\"k\":[[", &bare, b"]]}}"])),
+                    ("{s:0}", json!({ s.clone(): 0 }), cat(&[b"{", &bare, b":0}"])),
+                    ("[{s:[s]}]", json!([{ s.clone(): [s] }]), cat(&[b"[{", &bare, b":[", &bare, b"]}]"])),
+                ];
+                for (shape, v, want) in shapes {
+                    acc.evaluations += 1;
+                    match guard(|| w(&v)) {
+                        Guard::Done(Ok(got)) if got == want => acc.outcome("composes"),
+                        Guard::Done(Ok(got)) => acc.violation(
+                            &format!("encoding-depends-on-position:{wname}"),
+                            &format!("{wname}: the string {s:?} is written differently inside {shape} than on its own ({} vs {})", String::from_utf8_lossy(&got), String::from_utf8_lossy(&want)),
+                            || json!({"kind": "composition", "writer": wname, "string": s, "shape": shape}),
+                        ),
+                        Guard::Done(Err(e)) => acc.violation(&format!("encoding-depends-on-position:{wname}"), &format!("{wname}: {s:?} is encoded on its own but rejected inside {shape}: {e:?}"), || json!({"kind": "composition", "writer": wname, "string": s, "shape": shape})),
+                        Guard::Panicked(l, m) => acc.violation(&format!("panic:{l}"), &m, || json!({"kind": "composition", "writer": wname, "string": s, "shape": shape})),
+                    }
+                }
+            }
+            acc.nontrivial += 1;
+        });
+        acc.merge(Acc::merge_all(accs));
+    }
+
     // (e) spellings of a value subset
     let mut subset: Vec<Value> = vec![
         json!({"b": [1, "x"], "a": {"d": null, "c": "\"\\/\n\t\u{8}\u{c}\r"}, "é": "\u{1f600}\u{ffff}"}),
@@ -676,7 +722,7 @@ pub fn run(tier: Tier) -> i32 {
     crate::envprobe::judge(&mut acc, "C10:", &mut c.extra);
     c.acc = acc;
     c.rule = format!(
-        "(a) every scalar of the tier's set as a one-character string, as an object key next to another member, and as a key next to its successor; (a+) every ordered pair over the 32 C0 controls, DEL, a letter, quote and backslash and every triple over 9 of them, as string and as key; (a'') strings of 24 lengths 15..70001 with one of 7 escaping-relevant characters at the start / middle / end / every second position, as string and as key; for every value except single scalars also Json::to_writer and JsonPretty::canonicalize (same bytes) and a preceding canonicalize_for_signing call on the same thread (no influence); (b) value grammar: 13 leaves, arrays <= 2 and objects <= 2 (7 keys incl. U+FFFF / U+10000) over them, nested to depth {depth_done} over reduced child sets; (c) all 343 key triples; (d) integers 0, +-2^k, +-2^k+-1 (k<=64), 10^k, 10^k-1, extremes and 15 non-integer spellings in 5 contexts; (e) all spellings (6 whitespace fillers x 2 member orders x 5 escape modes x 2 channels) of {} values. distinct_nontrivial counts scalars + grammar values + non-integer cases",
+        "(a) every scalar of the tier's set as a one-character string, as an object key next to another member, and as a key next to its successor; (a+) every ordered pair over the 32 C0 controls, DEL, a letter, quote and backslash and every triple over 9 of them, as string and as key; (a'') strings of 24 lengths 15..70001 with one of 7 escaping-relevant characters at the start / middle / end / every second position, as string and as key; for every value except single scalars also Json::to_writer and JsonPretty::canonicalize (same bytes) and a preceding canonicalize_for_signing call on the same thread (no influence); (b) value grammar: 13 leaves, arrays <= 2 and objects <= 2 (7 keys incl. U+FFFF / U+10000) over them, nested to depth {depth_done} over reduced child sets; (c) all 343 key triples; (d) integers 0, +-2^k, +-2^k+-1 (k<=64), 10^k, 10^k-1, extremes and 15 non-integer spellings in 5 contexts; (f) composition for the canonical writer and the signing form: a string (critical strings <= 2, every C0 control alone and between letters) is written inside 9 container shapes (arrays, objects, as a key, nested to depth 4) exactly as on its own; (e) all spellings (6 whitespace fillers x 2 member orders x 5 escape modes x 2 channels) of {} values. distinct_nontrivial counts scalars + grammar values + non-integer cases",
         subset.len()
     );
     c.bound_completed = format!("scalars: {}; grammar depth {depth_done}", "all 1,112,064");
@@ -702,6 +748,16 @@ pub fn replay(case: &Value) -> Value {
             return json!({"canonical": r.clone().map(|b| String::from_utf8_lossy(&b).to_string()), "violation": if r.is_ok() != is_int { json!("number-handling") } else { Value::Null }});
         }
         Some("typed-writer") | Some("environment") | Some("long-value") => return json!({"note": "re-run ./check C10 quick", "violation": null}),
+        Some("composition") => {
+            let st = case["string"].as_str().unwrap_or("");
+            let sign = case["writer"] == "canonicalize_for_signing";
+            let w = |v: &Value| if sign { Json::canonicalize_for_signing(v) } else { Json::canonicalize(v) };
+            let bare = w(&json!(st)).unwrap_or_default();
+            let inside = w(&json!([st])).unwrap_or_default();
+            let nested = w(&json!({"k": [st]})).unwrap_or_default();
+            let ok = inside == [b"[".as_slice(), &bare, b"]"].concat() && nested == [b"{\"k\":[".as_slice(), &bare, b"]}"].concat();
+            return json!({"bare": String::from_utf8_lossy(&bare), "in_array": String::from_utf8_lossy(&inside), "violation": if ok { Value::Null } else { json!("encoding-depends-on-position") }});
+        }
         Some("spelling") => {
             if let Ok(v) = serde_json::from_str::<Value>(case["value_text"].as_str().unwrap_or("null")) {
                 check_spellings(&mut acc, &v);
